@@ -426,12 +426,13 @@ HARNESSES = [
             expect_reach=['tested'], selftest=20, split=16),
     Harness('penetrance_approx', h_penetrance, setup=setup_pen,
             cases=[{'genes': 1}],
-            thorough_cases=[{'genes': 1}, {'genes': 2}],
+            thorough_cases=[{'genes': 1}],
             funcs=['scores.penetrance_tests', 'approx_penetrance_test',
                    'penetrance_parameter_distance',
                    'score_utils.q_score_from_pij'],
-            bounds='1 (2) genes; everything symbolic incl. n_valid in '
-                   '[0, genes+2]',
+            bounds='1 gene; everything symbolic incl. n_valid in [0, 3] '
+                   '(two genes: z3 answers unknown on the non-linear '
+                   'distance comparisons - not registered)',
             classify=classify_pen, expect_reach=['tested'], selftest=20,
             split=32, query_timeout_ms=60000),
     Harness('welch_statistic', h_tt_nu, setup=setup_tt, cases=[{}],
